@@ -222,7 +222,7 @@ func outcomeTag(v any) string {
 	if !ok {
 		return "?"
 	}
-	for _, t := range []string{"ok", "err", "panic", "timeout"} {
+	for _, t := range []string{"ok", "err", "panic", "timeout", "crash"} {
 		if _, has := m[t]; has {
 			return t
 		}
@@ -331,3 +331,5 @@ func isFlagSet(fs *flag.FlagSet, name string) bool {
 }
 
 var startTime = time.Now()
+
+func bytesReader(b []byte) *bytes.Reader { return bytes.NewReader(b) }
